@@ -78,7 +78,7 @@ Print Assumptions C01_source_is_signed.
    for every frame and payload, in a buffer long enough, it leaves exactly the bytes of the model's
    [marshal] at the front of the buffer, the rest untouched, and returns their number; a v1 frame
    with an id above 255 is refused and the buffer is not touched *)
-Theorem C01_source_marshal_v1 : forall f p buf, f_v2 f = false -> 8 + length p <= length buf ->
+Theorem C01_source_marshal_v1 : forall f p buf, f_v2 f = false -> (8 + length p <= length buf)%nat ->
   src_frame_V1Frame_marshalTo (f_seq f) (f_sys f) (f_comp f) (f_ck f) (msg_id (f_msg f)) buf p =
   match marshal f p with
   | Result.Ok bs => (Bytes.nlen bs, false, (bs ++ skipn (length bs) buf)%list)
@@ -87,8 +87,8 @@ Theorem C01_source_marshal_v1 : forall f p buf, f_v2 f = false -> 8 + length p <
 Proof. exact src_v1_marshal. Qed.
 Print Assumptions C01_source_marshal_v1.
 
-Theorem C01_source_marshal_v2 : forall f p buf s, f_v2 f = true -> 25 + length p <= length buf ->
-  (is_signed f = true -> f_sig f = Some s /\ length s = 6) ->
+Theorem C01_source_marshal_v2 : forall f p buf s, f_v2 f = true -> (25 + length p <= length buf)%nat ->
+  (is_signed f = true -> f_sig f = Some s /\ length s = 6%nat) ->
   src_frame_V2Frame_marshalTo (f_inc f) (f_cmp f) (f_seq f) (f_sys f) (f_comp f) (f_ck f) (f_link f) (f_ts f) s
     (msg_id (f_msg f)) buf p =
   match marshal f p with
